@@ -6,6 +6,7 @@ import numpy as np
 from .. import common as C
 from .. import impl
 from .. import drex, solver
+from .. import robust
 
 # S2: the arithmetic kernels of core.py are re-traced from the source on every run and the bridge theorems
 # (lean/Bridge/Drex.lean: traced_f = ModelR.f) are re-checked by the Lean kernel.
@@ -101,8 +102,9 @@ def run(ctx, res):
             res.sample({"phase": c["phase"], "fabric": c["fabric"], "regime": c["regime"], "n": c["n"], "Q": Q.tolist(),
                         "relabelled_grains": int(sub.sum())})
 
+    robust.run(res, np.random.default_rng(ctx["seed"] + 80), ctx, "C04", n_sc=(1 if not ctx["thorough"] else 6))
     # ---------------- (b) integrated textures
-    n_sc = 6 if not ctx["thorough"] else 50
+    n_sc = 8 if not ctx["thorough"] else 50
     worst = 0.0
     for k in range(n_sc):
         sc = solver.make_scenario(rng, k, nmax=10 if not ctx["thorough"] else 32, regimes=(4, 6))
@@ -112,9 +114,35 @@ def run(ctx, res):
         M = impl._minerals
         mk = lambda A: M.Mineral(phase=m0.phase, fabric=m0.fabric, regime=m0.regime, n_grains=sc["n"],  # noqa: E731
                                  fractions_init=f0.copy(), orientations_init=np.ascontiguousarray(A))
-        m1, F1, _ = solver.run_scenario(sc, mineral=mk(A0), record=False)
-        scq = dict(sc, field=sc["field"].rotated(Q), F0=Q @ sc["F0"] @ Q.T)
-        m2, F2, _ = solver.run_scenario(scq, mineral=mk(A0 @ Q.T), record=False)
+        if k % 2 == 0:
+            m1, F1, _ = solver.run_scenario(sc, mineral=mk(A0), record=False)
+            scq = dict(sc, field=sc["field"].rotated(Q), F0=Q @ sc["F0"] @ Q.T)
+            m2, F2, _ = solver.run_scenario(scq, mineral=mk(A0 @ Q.T), record=False)
+        else:
+            # the same problem posed the way a user with ONE flow object would pose it: the callable is re-used and its frame is changed
+            # in place between the runs; it returns Fortran-ordered arrays; the rotated orientations are handed over as a transposed view
+            class FrameField:
+                def __init__(self, base):
+                    self.base, self.Q = base, np.eye(3)
+
+                def set_frame(self, Q_):
+                    self.Q = np.array(Q_)
+
+                def pos(self, t):
+                    return self.Q @ self.base.pos(t)
+
+                def __call__(self, t, x):
+                    return np.asfortranarray(self.Q @ self.base(t, self.Q.T @ np.asarray(x, float)) @ self.Q.T)
+
+            ff = FrameField(sc["field"])
+            m1, F1, _ = solver.run_scenario(dict(sc, field=ff), mineral=mk(A0), record=False)
+            ff.set_frame(Q)
+            A0q = np.ascontiguousarray(np.einsum("ij,gkj->gik", Q, A0)).transpose(0, 2, 1)   # values of A0 @ Q.T, stored transposed
+            assert np.allclose(A0q, A0 @ Q.T, atol=1e-15)
+            m2, F2, _ = solver.run_scenario(dict(sc, field=ff, F0=np.asfortranarray(Q @ sc["F0"] @ Q.T)),
+                                            mineral=M.Mineral(phase=m0.phase, fabric=m0.fabric, regime=m0.regime, n_grains=sc["n"],
+                                                              fractions_init=f0.copy(), orientations_init=A0q), record=False)
+            res.count("integrated_pairs:one_reused_callable,fortran_L,transposed_view_A")
         sub = rng.random(sc["n"]) < 0.5
         sub[0] = True
         which = rng.integers(0, 3, size=sc["n"])
